@@ -22,8 +22,10 @@ ExpPath(p) == ExpPathV(p, Versions)
 CaseOf(p) == [w |-> "modpath", k |-> "path", in |-> [p |-> p, versions |-> Versions], exp |-> ExpPath(p)]
 
 \* punctuation sweep: every printable ASCII character at the start, in the middle and at the end of an element
-Sweep == {<<c>> \o S("a") : c \in 32..126} \cup {S("a") \o <<c>> \o S("b") : c \in 32..126} \cup {S("a") \o <<c>> : c \in 32..126}
-         \cup {S("x.y/") \o <<c>> \o S("b") : c \in 32..126} \cup {S("x.y/a") \o <<c>> : c \in 32..126}
+\* (and the control characters, DEL, and a few beyond ASCII: NBSP, e-acute, micro sign, an Arabic-Indic and a full-width digit, em dash)
+SweepChars == (1..127) \cup {160, 233, 181, 1635, 65298, 8212}
+Sweep == {<<c>> \o S("a") : c \in SweepChars} \cup {S("a") \o <<c>> \o S("b") : c \in SweepChars} \cup {S("a") \o <<c>> : c \in SweepChars}
+         \cup {S("x.y/") \o <<c>> \o S("b") : c \in SweepChars} \cup {S("x.y/a") \o <<c>> : c \in SweepChars}
 
 GlobPieces == <<S("a"), S("b"), S("*"), S("?"), S("[ab]"), S("[^a]"), S("[a-c]"), S("[c-a]"), S("\\*"), S("/"), S("["), S("[]a]"), S("\\"), S(","), S("*.com"), S("[a-"), S("x.com")>>
 Targets == {S("a"), S("b"), S("a/b"), S("ab/c"), S("a/b/c"), S("x.com/a"), S("*"), S("x.com"), S("c/a"), S("/a")}
